@@ -37,7 +37,7 @@ def generate(rseed, tier='quick'):
   pool = editgen.regex_pool(r, spec, escape=mdesc['kind'] == 'corpus')
   knobs = {
       'faults': r.random() < 0.8,
-      'container': r.choice(['list', 'gen', 'iter', 're', 'tuple', 'reuse']),
+      'container': r.choice(['list', 'gen', 'iter', 're', 'tuple']),
       'two_objects': r.random() < 0.7,
       'durable_roundtrip': r.random() < 0.7,
       'explicit_signature_key': r.random() < 0.4,
